@@ -102,7 +102,7 @@ class LogFormatter(logging.Formatter):
         Returns:
             str: The hashed value.
         """
-        return hashlib.sha256(value_to_hash.encode()).hexdigest()[:8]
+        return hashlib.sha256(value_to_hash.encode(errors="surrogatepass")).hexdigest()[:8]
 
     def clean_record(self, dirty_record: Dict, colorize: bool = True) -> Dict:
         """
